@@ -55,6 +55,16 @@ CLAIMED = {
             "*unthrottled* loop (which differs by not counting) and process-level isolation of hera.main are decided "
             "by differential runs on the real machine (every n in 0..len+2; run / rerun / other program / rerun).",
             "trusted: as C02 plus the oracle harness; process state outside VirtualMachine attributes is not modelled"),
+    "C06": ("Coq theorems: the specification's own arithmetic decoder inverts the HERA encoding table (complete "
+            "enumeration); every iteration of the interpreter loop on the operations of an accepted program is a "
+            "step of the independent word-level machine (specification decoder + specification step) on the "
+            "assembled words, and the loop ends exactly when that machine ends (refinement, composed over any "
+            "number of steps; open points of the ISA left open); the bytes the assembler emits for each data "
+            "statement are exactly the cells the interpreter writes, untouched cells stay zero. End-to-end oracle "
+            "on the real tool: `hera assemble --stdout` output executed by the word machine (evaluated in Coq) vs "
+            "`hera --throttle`, byte-identical output with debugging ops added, disassemble/re-assemble.",
+            "trusted: Spec/WordMachine.v, Spec/EncTable.v, Spec/ISA.v, Model/Run.v, Model/Bitvec.v; the "
+            "preprocessor's layout is covered by C04's check"),
 }
 
 checks = []
